@@ -68,6 +68,26 @@ func runScenario(t *testing.T, sc *Scenario, cfg simrt.Config) (res *RunResult) 
 			res.Out = sim.Run()
 			res.SimTime = res.Out.End.Sub(sim.Start())
 			log.closed = true
+			// end-of-run state of every execution copy handed to a layer (must be read inside the bubble)
+			for i := range log.Ev {
+				e := &log.Ev[i]
+				if e.Kind != EvProbeEnter {
+					continue
+				}
+				if ex, ok := e.Ref.(failsafe.Execution[R]); ok && ex != nil {
+					if ex.IsCanceled() {
+						e.Flags |= FEndCanceled
+					}
+					select {
+					case <-ex.Canceled():
+						e.Flags |= FEndChanClosed
+					default:
+					}
+					if ex.Context() != nil && ex.Context().Err() != nil {
+						e.Flags |= FEndCtxErr
+					}
+				}
+			}
 			// leak registry: pending timers
 			res.Timers = sim.Timers()
 			for i, tr := range res.Timers {
